@@ -13,7 +13,7 @@ import os
 import sys
 
 sys.path.insert(0, os.path.dirname(os.path.abspath(__file__)))
-from rustmini import (Evaluator, Flow, P, Unsupported, find_fn, find_matching, parse_block, path_str,
+from rustmini import (STATE_PLACE, Evaluator, Flow, P, Unsupported, find_fn, find_matching, parse_block, path_str,
                       strip_attrs_cfg, tokenize)
 
 STATES = ["Idle", "Pending", "Running", "WaitingForWake", "WaitingForUnpark", "WaitingForPoll", "AwokenWhileRunning", "Panicked"]
@@ -110,6 +110,62 @@ def find_let(ast, name):
         if isinstance(n, tuple) and n and n[0] == "let" and n[1] == ("pbind", name):
             return n[2]
     raise Unsupported("let %s not found" % name)
+
+
+def is_state_place(ps):
+    """`<local>.state`: the queue state read through a lock guard, whatever the guard's local is called"""
+    return ps is not None and STATE_PLACE.fullmatch(ps) is not None
+
+
+def find_decision_let(ast, place=None):
+    """The first `let NAME = <init>` whose initialiser contains a `match` on `place` (or an assignment to it): the decision
+    block of a critical section.  Found by shape, not by the name of the local."""
+    best = None
+    for n in walk(ast):
+        if isinstance(n, tuple) and n and n[0] == "let" and isinstance(n[1], tuple) and n[1][0] == "pbind" and n[2] is not None:
+            inner = list(walk(n[2]))
+            if any(isinstance(m, tuple) and m and m[0] == "match" and (is_state_place(path_str(m[1])) if place is None else path_str(m[1]) == place) for m in inner):
+                if best is None or len(inner) < best[0]:
+                    best = (len(inner), n[1][1], n[2])       # the innermost such `let`
+    if best is None:
+        raise Unsupported("no `let` whose initialiser matches on %s" % (place or "the queue state"))
+    return best[1], best[2]
+
+
+def find_enclosing_let(ast, inner_name):
+    """the innermost `let NAME = <init>` whose initialiser contains the `let inner_name = ...`"""
+    best = None
+    for n in walk(ast):
+        if isinstance(n, tuple) and n and n[0] == "let" and isinstance(n[1], tuple) and n[1][0] == "pbind" and n[2] is not None and n[1][1] != inner_name:
+            inner = list(walk(n[2]))
+            if any(isinstance(m, tuple) and m and m[0] == "let" and m[1] == ("pbind", inner_name) for m in inner):
+                if best is None or len(inner) < best[0]:
+                    best = (len(inner), n[1][1])
+    if best is None:
+        raise Unsupported("no `let` around `let %s`" % inner_name)
+    return best[1]
+
+
+def find_state_read_let(ast):
+    """`let NAME = <init>` whose initialiser reads a `.state` field and decides nothing (no match inside): the park loop's read"""
+    for n in walk(ast):
+        if isinstance(n, tuple) and n and n[0] == "let" and isinstance(n[1], tuple) and n[1][0] == "pbind" and n[2] is not None:
+            inner = list(walk(n[2]))
+            if any(isinstance(m, tuple) and m and m[0] == "field" and m[-1] == "state" for m in inner) and not any(isinstance(m, tuple) and m and m[0] == "match" for m in inner):
+                return n[1][1]
+    raise Unsupported("no `let` that reads a queue state")
+
+
+def find_enclosing_block(ast, node):
+    """the innermost `{ ... }` block of `ast` that contains `node` (by identity): the critical section the match sits in"""
+    best = None
+    for b in walk(ast):
+        if isinstance(b, tuple) and b and b[0] == "block" and b is not node:
+            inner = list(walk(b))
+            if any(m is node for m in inner):
+                if best is None or len(inner) < best[0]:
+                    best = (len(inner), b)
+    return best[1] if best else node
 
 
 def find_match_on(ast, pred):
@@ -227,8 +283,8 @@ class Extractor:
 
     def sync_like(self, fn, lean_name, acts, doc):
         body, _ = self.src.fn_body("scheduler/desync_scheduler.rs", fn, impl_of="Scheduler")
-        decide = find_let(body, "run_action")
-        second = find_match_on(body, lambda p: p == "run_action")
+        ra, decide = find_decision_let(body)
+        second = find_match_on(body, lambda p: p == ra)
         rows = {}
         for s, p, e in self.inputs(with_empty=True):
             ev = Evaluator(self.env("core.state", s, p, e), mcall=std_mcall)
@@ -238,7 +294,7 @@ class Extractor:
             if any(x[0] == "queue" for x in ev.effects):
                 raise Unsupported("%s: decision block touches the job queue" % fn)
             st = ev.env["core.state"]
-            ev2 = Evaluator({"run_action": r[1]}, mcall=std_mcall)
+            ev2 = Evaluator({ra: r[1]}, mcall=std_mcall)
             r2 = ev2.run(second)
             act = self.act_of_effects(ev2, r2[0])
             if act is None:
@@ -256,8 +312,8 @@ class Extractor:
 
     def desync_push(self):
         body, _ = self.src.fn_body("scheduler/desync_scheduler.rs", "schedule_job_desync", impl_of="Scheduler")
-        decide = find_let(body, "schedule_queue")
-        second = find_match_on(body, lambda p: p == "schedule_queue")
+        sq, decide = find_decision_let(body)
+        second = find_match_on(body, lambda p: p == sq)
         rows = {}
         for s, p, e in self.inputs():
             ev = Evaluator(self.env("core.state", s, p, None), mcall=std_mcall)
@@ -268,7 +324,7 @@ class Extractor:
             if qops != ["push_back"]:
                 raise Unsupported("schedule_job_desync: queue operations are %r, expected one push_back" % qops)
             st = ev.env["core.state"]
-            ev2 = Evaluator({"schedule_queue": r[1]}, mcall=std_mcall)
+            ev2 = Evaluator({sq: r[1]}, mcall=std_mcall)
             r2 = ev2.run(second)
             if r2[0] == "panic":
                 act = "panic"
@@ -283,14 +339,15 @@ class Extractor:
 
     def poll_decide(self):
         body, _ = self.src.fn_body("scheduler/scheduler_future.rs", "poll", impl_of="Future")
-        decide = find_let(body, "run_action")
+        ra, decide = find_decision_let(body)
         wake_match = None
         for n in walk(body):
-            if isinstance(n, tuple) and n and n[0] == "match" and n[1] == ("un", "&", ("path", ["run_action"])):
+            if isinstance(n, tuple) and n and n[0] == "match" and n[1] == ("un", "&", ("path", [ra])):
                 wake_match = n
         if wake_match is None:
             raise Unsupported("poll: match &run_action not found")
-        final = find_match_on(body, lambda p: p == "next_action")
+        na = find_enclosing_let(body, ra)
+        final = find_match_on(body, lambda p: p == na)
         rows = {}
         for s, p, e in self.inputs(with_own=True):
             ev = Evaluator(self.env("core.state", s, p, None), mcall=std_mcall)
@@ -298,10 +355,10 @@ class Extractor:
             if r[0] != "value":
                 raise Unsupported("poll: %r" % (r,))
             st = ev.env["core.state"]
-            ev2 = Evaluator({"run_action": r[1]}, mcall=std_mcall)
+            ev2 = Evaluator({ra: r[1]}, mcall=std_mcall)
             ev2.run(wake_match)
             store = any(x[0] == "assign" and x[1] == "future_result.waker" for x in ev2.effects)
-            ev3 = Evaluator({"next_action": r[1]}, mcall=std_mcall)
+            ev3 = Evaluator({na: r[1]}, mcall=std_mcall)
             r3 = ev3.run(final)
             if r3[0] == "panic":
                 act = "panic"
@@ -315,9 +372,13 @@ class Extractor:
         self.emit_table("pollDecide", "(self : Nat) : QState → QState × PollAct × Bool", rows,
                         "scheduler_future.rs `SchedulerFuture::poll` when the result has not arrived: new state, action, whether the caller's waker is stored", with_own=True)
 
-    def simple_match(self, rel, fn, impl_of, place, lean_name, sig, doc, classify, with_empty=False, pred=None, whole=None):
+    def simple_match(self, rel, fn, impl_of, place, lean_name, sig, doc, classify, with_empty=False, pred=None, whole=None, section=False):
         body, _ = self.src.fn_body(rel, fn, impl_of=impl_of)
-        node = whole(body) if whole else find_match_on(body, pred or (lambda p: p == place))
+        node = whole(body) if whole else find_match_on(body, pred or (lambda p: p == place or (is_state_place(place) and is_state_place(p))))
+        if section:
+            # evaluate the whole critical section the match sits in, so that a state computed by the match and assigned
+            # after it (or before it) is still seen
+            node = find_enclosing_block(body, node)
         rows = {}
         for s, p, e in self.inputs(with_empty=with_empty):
             ev = Evaluator(self.env(place, s, p, e), mcall=std_mcall)
@@ -346,13 +407,14 @@ class Extractor:
         names = [t[1] for t in toks]
         self.digest["facts"]["rescheduleNotifies"] = "notify_one" in names or "notify_all" in names
         # after a true result: push on schedule then schedule_thread
+        rname, _ = find_decision_let(body)
         tail = None
         for n in walk(body):
-            if isinstance(n, tuple) and n and n[0] == "if" and n[1] == ("path", ["reschedule"]):
+            if isinstance(n, tuple) and n and n[0] == "if" and n[1] == ("path", [rname]):
                 tail = n
         if tail is None:
             raise Unsupported("reschedule_queue: `if reschedule` not found")
-        ev = Evaluator({"reschedule": True}, mcall=std_mcall)
+        ev = Evaluator({rname: True}, mcall=std_mcall)
         ev.run(tail)
         if not any(x[0] == "schedule_push" for x in ev.effects) or not any(x == ("selfcall", "schedule_thread") for x in ev.effects):
             raise Unsupported("reschedule_queue: rescheduling does not push on the schedule and call schedule_thread")
@@ -360,7 +422,7 @@ class Extractor:
     def future_drop(self):
         """`Drop for SchedulerFuture`: what it does to the queue state, and that it only looks when the future was draining"""
         body, toks = self.src.fn_body("scheduler/scheduler_future.rs", "drop", impl_of="SchedulerFuture")
-        node = find_match_on(body, lambda p: p == "core.state")
+        node = find_match_on(body, is_state_place)
         rows = {}
         for s_, p_, e_ in self.inputs(with_own=True):
             ev = Evaluator(self.env("core.state", s_, p_, None), mcall=std_mcall)
@@ -429,7 +491,7 @@ class Extractor:
         pend = None
         for n in walk(body):
             if isinstance(n, tuple) and n and n[0] == "block":
-                idx = [i for i, s in enumerate(n[1]) if s[0] == "assign" and path_str(s[1]) == "core.state" and s[2][0] == "match"]
+                idx = [i for i, s in enumerate(n[1]) if s[0] == "assign" and is_state_place(path_str(s[1])) and s[2][0] == "match"]
                 if idx:
                     pend = ("block", n[1][idx[0]:])
                     pre = n[1][:idx[0]]
@@ -452,20 +514,27 @@ class Extractor:
                 exit_if = n
         if exit_if is None:
             raise Unsupported("drain: exit test not found")
+        # the flag that ends the drain loop: `while !FLAG`, whatever the local is called
+        flag = None
+        for n in walk(body):
+            if isinstance(n, tuple) and n and n[0] == "loop" and n[1] == "while" and isinstance(n[2], tuple) and n[2][:2] == ("un", "!") and n[2][2][0] == "path" and len(n[2][2][1]) == 1:
+                flag = n[2][2][1][0]
+        if flag is None:
+            raise Unsupported("drain: `while !flag` loop not found")
         rows = {}
         for s, p, e in self.inputs(with_empty=True):
             env = self.env("core.state", s, p, e)
-            env["done"] = False
+            env[flag] = False
             ev = Evaluator(env, mcall=std_mcall)
             r = ev.run(exit_if)
             if r[0] != "value":
                 raise Unsupported("drain exit(%s): %r" % (s, r))
-            rows[(s, p, e)] = "(%s, %s)" % (lean_state(ev.env["core.state"], self.PN), "true" if ev.env["done"] is True else "false")
+            rows[(s, p, e)] = "(%s, %s)" % (lean_state(ev.env["core.state"], self.PN), "true" if ev.env[flag] is True else "false")
         self.emit_table("drainExit", ": QState → Bool → QState × Bool", rows, "job_queue.rs `drain`, when dequeue yields nothing: new state and whether the drain loop ends", with_empty=True)
 
     def run_one(self):
         body, _ = self.src.fn_body("scheduler/job_queue.rs", "run_one_job_now", impl_of="JobQueue")
-        sp = find_let(body, "should_park")
+        _, sp = find_decision_let(body)
         rows = {}
         for s, p, e in self.inputs():
             ev = Evaluator(self.env("core.state", s, p, None), mcall=std_mcall)
@@ -477,10 +546,11 @@ class Extractor:
             else:
                 raise Unsupported("run_one_job_now should_park(%s): %r" % (s, r))
         self.emit_table("runOnePending", ": QState → QState × ParkAct", rows, "job_queue.rs `run_one_job_now`, after the job returned Pending: new state and whether the caller parks")
-        m = find_match_on(body, lambda p: p == "current_state")
+        cs = find_state_read_let(body)
+        m = find_match_on(body, lambda p: p == cs)
         rows = {}
         for s, p, e in self.inputs():
-            ev = Evaluator(self.env("current_state", s, p, None), mcall=std_mcall)
+            ev = Evaluator(self.env(cs, s, p, None), mcall=std_mcall)
             r = ev.run(m)
             if r[0] == "panic":
                 v = ".panic"
@@ -501,7 +571,7 @@ class Extractor:
                 return "(%s, true)" % lean_state(ev.env["queue_core.state"], self.PN)
             raise Unsupported("WakeQueue(%s): %r" % (s, r))
         self.simple_match("scheduler/wake_queue.rs", "wake_by_ref", "WakeQueue", "queue_core.state", "wakeQueue", ": QState → QState × Bool",
-                          "wake_queue.rs `WakeQueue::wake`: new state and whether reschedule_queue is called", clq)
+                          "wake_queue.rs `WakeQueue::wake`: new state and whether reschedule_queue is called", clq, section=True)
         body, toks = self.src.fn_body("scheduler/wake_queue.rs", "wake_by_ref", impl_of="WakeQueue")
         if "reschedule_queue" not in [t[1] for t in toks]:
             raise Unsupported("WakeQueue::wake no longer calls reschedule_queue")
@@ -511,7 +581,7 @@ class Extractor:
                 raise Unsupported("WakeThread(%s): %r" % (s, r))
             return lean_state(ev.env["queue_core.state"], self.PN)
         self.simple_match("scheduler/wake_thread.rs", "wake_by_ref", "WakeThread", "queue_core.state", "wakeThread", ": QState → QState",
-                          "wake_thread.rs `WakeThread::wake`: new state (the thread is then unparked)", clt)
+                          "wake_thread.rs `WakeThread::wake`: new state (the thread is then unparked)", clt, section=True)
         body, toks = self.src.fn_body("scheduler/wake_thread.rs", "wake_by_ref", impl_of="WakeThread")
         self.digest["facts"]["wakeThreadUnparks"] = "unpark" in [t[1] for t in toks]
         self.out.append("/-- wake_thread.rs: `WakeThread::wake` unparks the thread after the state update -/")
@@ -694,6 +764,8 @@ class Extractor:
         self.out.append("/-- does `SyncFuture` have a hand-written `Drop` impl (which would run before the fields are dropped)? -/")
         self.out.append("def syncFutureCustomDrop : Bool := %s\n" % ("true" if custom_drop else "false"))
         self.digest["facts"]["syncFutureCustomDrop"] = custom_drop
+
+    def pipe_facts_unit(self):
         # pipe constants
         toks = self.src.load("pipe.rs")
         names = [t[1] for t in toks]
@@ -847,26 +919,58 @@ class Extractor:
         self.out.append("def pipeWakerOneShot : Bool := %s\n" % ("true" if oneshot else "false"))
         self.digest["facts"]["pipeWakerOneShot"] = oneshot
 
-    def run(self):
+    def unit(self, name, f, *args):
+        """One extraction unit.  If the source no longer has the shape the unit understands, the unit's previous text (from the
+        output file as it stands) is kept, the failure is recorded under digest["errors"][name], and the other units go on:
+        the check then reports the properties that rest on this unit, not all of them."""
+        start = len(self.out)
+        saved = (dict(self.digest["tables"]), dict(self.digest["facts"]))
+        self.out.append("-- «unit:%s»" % name)
+        try:
+            f(*args)
+        except (Unsupported, IndexError, KeyError, ValueError, AssertionError, TypeError) as e:
+            old = self.old_units.get(name)
+            if old is None:
+                raise
+            del self.out[start + 1:]
+            self.out.extend(old)
+            self.digest["tables"], self.digest["facts"] = saved
+            msg = str(e) if isinstance(e, Unsupported) else "unexpected source shape (%s: %s)" % (type(e).__name__, e)
+            self.digest.setdefault("errors", {})[name] = msg
+        self.out.append("-- «end:%s»" % name)
+
+    def run(self, old_text=None):
+        self.old_units = {}
+        if old_text:
+            cur, buf = None, []
+            for line in old_text.split("\n"):
+                if line.startswith("-- «unit:") and line.endswith("»"):
+                    cur, buf = line[len("-- «unit:"):-1], []
+                elif line.startswith("-- «end:") and cur is not None:
+                    self.old_units[cur] = buf
+                    cur = None
+                elif cur is not None:
+                    buf.append(line)
         self.out.append("/- GENERATED by /verif/tools/extract.py from /repo/src — do not edit; rewritten on every check run. -/")
         self.out.append("import DesyncModel.Types\n")
         self.out.append("namespace Desync\nnamespace Gen\n")
-        self.queue_state()
-        self.desync_push()
-        self.sync_like("sync", "syncDecide", {"immediate", "drain", "background", "panic"}, "desync_scheduler.rs `sync`: new state and strategy, by state and whether the queue is empty")
-        self.sync_like("sync_no_panic", "syncNoPanicDecide", {"immediate", "drain", "background", "refuse"}, "desync_scheduler.rs `sync_no_panic` (used by Drop while panicking)")
-        self.sync_like("try_sync", "trySyncDecide", {"immediate", "busy", "panic"}, "desync_scheduler.rs `try_sync`")
-        self.poll_decide()
-        self.future_drop()
-        self.claim()
-        self.reschedule()
-        self.next_to_run()
-        self.dequeue()
-        self.drain_tables()
-        self.run_one()
-        self.wakers()
-        self.latch()
-        self.facts()
+        self.unit("queue_state", self.queue_state)
+        self.unit("desync_push", self.desync_push)
+        self.unit("sync", self.sync_like, "sync", "syncDecide", {"immediate", "drain", "background", "panic"}, "desync_scheduler.rs `sync`: new state and strategy, by state and whether the queue is empty")
+        self.unit("sync_no_panic", self.sync_like, "sync_no_panic", "syncNoPanicDecide", {"immediate", "drain", "background", "refuse"}, "desync_scheduler.rs `sync_no_panic` (used by Drop while panicking)")
+        self.unit("try_sync", self.sync_like, "try_sync", "trySyncDecide", {"immediate", "busy", "panic"}, "desync_scheduler.rs `try_sync`")
+        self.unit("poll_decide", self.poll_decide)
+        self.unit("future_drop", self.future_drop)
+        self.unit("claim", self.claim)
+        self.unit("reschedule", self.reschedule)
+        self.unit("next_to_run", self.next_to_run)
+        self.unit("dequeue", self.dequeue)
+        self.unit("drain_tables", self.drain_tables)
+        self.unit("run_one", self.run_one)
+        self.unit("wakers", self.wakers)
+        self.unit("latch", self.latch)
+        self.unit("facts", self.facts)
+        self.unit("pipe_facts", self.pipe_facts_unit)
         digests = {}
         for rel, raw in sorted(self.src.raw.items()):
             digests[rel] = hashlib.sha256(raw.encode()).hexdigest()[:16]
@@ -881,20 +985,26 @@ def main():
         sys.exit(2)
     srcdir, out = sys.argv[1], sys.argv[2]
     ex = Extractor(srcdir)
+    old = open(out).read() if os.path.exists(out) else None
     try:
-        text = ex.run()
+        text = ex.run(old)
     except Unsupported as e:
         print("EXTRACT-ERROR: %s" % e, file=sys.stderr)
         sys.exit(2)
-    except (IndexError, KeyError, ValueError, AssertionError) as e:
+    except (IndexError, KeyError, ValueError, AssertionError, TypeError) as e:
         print("EXTRACT-ERROR: unexpected source shape (%s: %s)" % (type(e).__name__, e), file=sys.stderr)
         sys.exit(2)
-    old = open(out).read() if os.path.exists(out) else None
     if old != text:
         open(out, "w").write(text)
     if "--digest" in sys.argv:
         json.dump(ex.digest, open(sys.argv[sys.argv.index("--digest") + 1], "w"), indent=1, sort_keys=True)
+    errs = ex.digest.get("errors", {})
+    for u, m in sorted(errs.items()):
+        # the unit's previous text is kept; the check reports the properties that rest on it
+        print("EXTRACT-ERROR: unit %s: %s" % (u, m), file=sys.stderr)
     print("extracted %d tables, %d facts%s" % (len(ex.digest["tables"]), len(ex.digest["facts"]), "" if old != text else " (unchanged)"))
+    if errs:
+        sys.exit(3)
 
 
 if __name__ == "__main__":
